@@ -30,6 +30,23 @@ def run(ctx, res):
         else:
             res.bad("PARSE-PROGRESS", key, "forward-progress assertion in `%s`: %s" % (f.path, why), s.loc())
     PP.pop_unpop(P, reach, res)
+    # KEYWORD-GUARD: parse_symbol leaves a misplaced keyword unconsumed, so a sub-parser that starts with
+    # parse_symbol and then recurses into parse_expression must not be entered on a keyword: the dispatch to
+    # parse_struct_literal has to be behind a KEYWORDS.contains test (otherwise `else{` recurses forever).
+    n_sl = 0
+    for p in sorted(reach):
+        g = P.funcs[p]
+        for bi, t in g.calls():
+            if M.callee_name(t) == "parser::parse_struct_literal":
+                n_sl += 1
+                if PI.guarded_by_call(g, bi, "::contains"):
+                    res.ok("KEYWORD-GUARD", "%s: parse_struct_literal is entered only when the name is not a keyword" % p)
+                else:
+                    res.bad("KEYWORD-GUARD", "%s # struct-literal-on-keyword" % p,
+                            "`%s` dispatches to parse_struct_literal without excluding keywords: for `else{` parse_symbol "
+                            "consumes nothing and the struct-literal field loop calls parse_expression on the same token "
+                            "again (unbounded recursion, stack overflow)" % p, g.loc(t.get("fn_span")))
+    res.floor("KEYWORD-GUARD", "calls of parse_struct_literal", n_sl, 1)
     if ctx.tier == "thorough":
         from .. import loops as LP
         LP.run(ctx, res, reach, defect_for=("syntax-depth",))
